@@ -17,6 +17,33 @@ CHECKS = {
         note="Trusts the hook placement (before/after the coroutine call) and the harness ledger; interleavings are "
              "sampled with OS-level delays at hook points, not enumerated; 48-bit state tag wrap-around out of reach.",
         ref="DESIGN.md section 2, C01"),
+    "C02": dict(
+        technique="runtime monitoring: one-shot waiter/waker ledger + state-based quiescence watchdog + single-runner monitor; "
+                  "hook-point delays widen the resume-before-suspend windows; TSan as extra oracle",
+        text="Exploration: one-shot waiter/waker pairs over raw agent suspend/resume (one and two wakers), detail::condition_variable, "
+             "counting_semaphore, latch, pika::mutex and thread::join, wakers on tasks and plain OS threads, 8 policies x worker counts, "
+             "four perturbation profiles. A wake-up issued after registration must resume the waiter; a quiescent runtime with an "
+             "issued wake-up outstanding is reported with the pair as witness. Coverage counters prove the windows were hit "
+             "(target still active, helper retry, helper abort on tag change).",
+        note="Safety reading of 'no lost wake-up' decided on observed runs; wakers depend only on the registration flag; interleavings sampled.",
+        ref="DESIGN.md section 2, C02"),
+    "C06": dict(
+        technique="runtime monitoring: occupancy/owner monitor, plain multi-word record (torn/stale detection, TSan for happens-before), "
+                  "progress ledger + quiescence watchdog, API conformance prologue for misuse reporting",
+        text="Exploration: 2-64 contenders on pika::mutex, timed_mutex, recursive mutex and both spinlocks mixing lock/try_lock/"
+             "try_lock_for/try_lock_until/unlock with yields inside the section; exclusion, visibility, hand-off (no lost unlock) and "
+             "truthful try_lock results are checked on every section; misuse (relock, foreign unlock) must be reported and leave the lock intact.",
+        note="Sections under spinlocks do not yield (usage contract); timed waits use short deadlines; interleavings sampled.",
+        ref="DESIGN.md section 2, C06"),
+    "C07": dict(
+        technique="runtime monitoring: generation/token protocol rounds with registration under the user lock, ledger + quiescence/stall "
+                  "watchdog, lock-ownership and payload visibility checks, TSan as extra oracle",
+        text="Exploration: rounds of 1-24 waiters on condition_variable / condition_variable_any with pika::mutex (tasks) and std::mutex "
+             "(plain OS threads): notify_all, W x notify_one, timed waits notified before the deadline, stop_token waits. The notifier "
+             "is launched by the last registrant and takes the user lock first, so every registered waiter must be woken.",
+        note="Latency of timed waits not judged; lock types limited to pika::mutex and std::mutex; D14 (timed wait on a plain OS "
+             "thread deadlocks the notifier) is a listed known finding.",
+        ref="DESIGN.md section 2, C07"),
 }
 
 NOT_YET = "not claimed yet: harness under construction in this session (see DESIGN.md section 2)"
